@@ -27,6 +27,14 @@ MUT = {
     "C18-tensor": {
         "both-sites-memory-order": [("src/spox/_utils.py", "        vals=(\n            np.char.encode(arr, encoding=\"utf-8\") if cast_to_bytes else arr\n        ).flatten(),\n", "        vals=np.ravel(\n            np.char.encode(arr, encoding=\"utf-8\") if cast_to_bytes else arr, order=\"K\"\n        ),\n"), ("src/spox/_attributes.py", "        super().__init__(value.copy(), name)\n", "        super().__init__(np.array(value), name)\n"), ("src/spox/_attributes.py", "                v.copy() if isinstance(v, (np.ndarray, np.generic)) else v\n", "                np.array(v) if isinstance(v, (np.ndarray, np.generic)) else v\n")],
     },
+    "C11-round3": {
+        "attrtype-named-dims-become-unknown": [("src/spox/_attributes.py", "                dtype_to_tensor_type(value.dtype),\n                value.shape,\n", "                dtype_to_tensor_type(value.dtype),\n                None if value.shape is None else tuple(d if isinstance(d, int) else None for d in value.shape),\n"), ("src/spox/_attributes.py", "            type_proto = make_sequence_type_proto(value.elem_type._to_onnx())\n", "            _e = value.elem_type\n            type_proto = make_sequence_type_proto(make_tensor_type_proto(dtype_to_tensor_type(_e.dtype), None if _e.shape is None else tuple(d if isinstance(d, int) else None for d in _e.shape)) if isinstance(_e, _type_system.Tensor) else _e._to_onnx())\n")],
+        "variadic-list-aliased-not-copied": [("src/spox/_fields.py", "                value = tuple(value)\n                setattr(self, field.name, value)\n", "                if not isinstance(value, (list, tuple)):\n                    value = tuple(value)\n                setattr(self, field.name, value)\n")],
+    },
+    "C18-round3": {
+        "attrtype-named-dims-become-unknown": [("src/spox/_attributes.py", "                dtype_to_tensor_type(value.dtype),\n                value.shape,\n", "                dtype_to_tensor_type(value.dtype),\n                None if value.shape is None else tuple(d if isinstance(d, int) else None for d in value.shape),\n"), ("src/spox/_attributes.py", "            type_proto = make_sequence_type_proto(value.elem_type._to_onnx())\n", "            _e = value.elem_type\n            type_proto = make_sequence_type_proto(make_tensor_type_proto(dtype_to_tensor_type(_e.dtype), None if _e.shape is None else tuple(d if isinstance(d, int) else None for d in _e.shape)) if isinstance(_e, _type_system.Tensor) else _e._to_onnx())\n")],
+        "variadic-list-aliased-not-copied": [("src/spox/_fields.py", "                value = tuple(value)\n                setattr(self, field.name, value)\n", "                if not isinstance(value, (list, tuple)):\n                    value = tuple(value)\n                setattr(self, field.name, value)\n")],
+    },
     "C11-repeat": {
         "trim-end-located-by-name-lookup": [("src/spox/_node.py", "        while len(input_names) > self.min_input and not input_names[-1]:\n            input_names.pop()\n", "        _used = [n for n in input_names if n]\n        _end = input_names.index(_used[-1]) + 1 if _used else 0\n        input_names = input_names[: max(_end, min(self.min_input, len(input_names)))]\n")],
         "inputs-deduplicated-by-var": [("src/spox/_node.py", "        input_names = [scope.var[var] if var is not None else \"\" for var in self.inputs]\n", "        _names = {}\n        for var in self.inputs:\n            _names.setdefault(id(var) if var is not None else object(), scope.var[var] if var is not None else '')\n        input_names = list(_names.values())\n")],
